@@ -6,6 +6,10 @@ from .gen import Kit
 
 def checkers_for(prop, opts):
     c = [checkers.Reach()]
+    if opts.get('twin') and prop != 'C16':
+        # twin replays are compared event by event; their own in-run verdicts are not used (C16's checker performs
+        # extra serialisations of its own, so it stays on to keep main run and twin alike)
+        return c
     table = {
         'C01': [checkers.C01ValidOutput],
         'C06': [checkers.C06Conservation],
@@ -219,6 +223,8 @@ def wl_C13(rng, w, cfg, index):
         progs.append(prog_values(kit, 4, cfg))
     if rng.random() < 0.4:
         progs.append(prog_related(kit, 3, cfg))
+    if rng.random() < 0.35:
+        progs.append(prog_related_complex(kit, 2, cfg))
 
     def program():
         if rng.random() < 0.5:
@@ -365,14 +371,34 @@ def wl_C16(rng, w, cfg, index):
     wts.update({'to_string': 0.3, 'to_string_ic': 0.0, 'check': 0.0, 'check_ic': 0.0, 'read': 0.0, 'deep': 1.0})
     cfg['weights'] = wts
     cfg['p_final_serialise'] = 1.0
+    if ic_reads:
+        cfg['shape'] = rng.choice(['valid_permuted', 'valid_perturbed', 'valid_permuted', 'uniform', 'alternate_choice'])
     kit = Kit(rng, w, cfg)
     strpos = string_positions()
     # prefer parents that can hold a string-valued child
     cands = [e for e in spec.ELEMENT_CONTENT_ELEMENTS if any(s in spec.model_for_element(e).alpha for s in strpos)]
     elem = cands[index % len(cands)] if rng.random() < 0.7 else gen.pick_elements(rng, 1, index)[0]
+    amb_first = []
+    if ic_reads and rng.random() < 0.5 and spec.AMBIGUOUS_ELEMENTS:
+        # a type in which some child name has several slots: the only states where intelligent choice differs
+        elem = rng.choice(spec.AMBIGUOUS_ELEMENTS)
+        amb_first = rng.sample(spec.ambiguous_names(elem), min(len(spec.ambiguous_names(elem)), rng.randint(1, 2)))
     model = spec.model_for_element(elem)
 
     def mutator():
+        if amb_first:
+            yield {'op': 'NEW', 'a': 0, 'doc': 'd0', 'c': kit.rootspec(elem, True)}
+            for x in amb_first:
+                yield {'op': 'ADD', 'a': 0, 'p': ['d0'], 'c': kit.childspec(x, opaque=True)}
+            root = w.docs.get('d0')
+            if root is None:
+                return
+            sub = gen.sub_alphabet(rng, model)
+            wts2 = dict(add=4, remove=1.5, replace=0.5, dot_none=0.5, complete=0.6, attr=0.3)
+            for _ in range(rng.randint(0, 5)):
+                yield from gen._one_random(kit, 0, 'd0', root, sub, wts2, cfg)
+            yield {'op': 'TO_STRING', 'a': 0, 'p': ['d0'], 'ic': rng.random() < 0.5}
+            return
         base = gen.prog_history(kit, 0, 'd0', elem, dict(cfg, nsteps=rng.randint(2, 8)))
         for op in base:
             # sprinkle tricky strings into string-typed children and token/string attributes
@@ -404,7 +430,13 @@ def wl_C16(rng, w, cfg, index):
             node = rng.choice(nodes) if rng.random() < 0.3 else root
             path = w.path_of(node) or ['d0']
             r = rng.random()
-            if r < 0.45:
+            if ic_reads and r < 0.12:
+                # the same tree serialised plainly and then with intelligent choice (or the other way round): the
+                # second call must return what it returns without the first
+                first = rng.random() < 0.7
+                yield {'op': 'TO_STRING', 'a': 1, 'p': path, 'ic': not first, 'reader': True, 'fault': 'obs.interpose'}
+                yield {'op': 'TO_STRING', 'a': 1, 'p': path, 'ic': first, 'reader': True, 'fault': 'obs.interpose'}
+            elif r < 0.45:
                 yield {'op': 'TO_STRING', 'a': 1, 'p': path, 'ic': ic_reads and rng.random() < 0.5, 'reader': True,
                        'twice': rng.random() < 0.5, 'subtree': rng.randrange(4) if rng.random() < 0.4 else None,
                        'fault': 'obs.interpose'}
@@ -1351,3 +1383,57 @@ def prog_related(kit, actor, cfg):
                 yield {'op': 'NEW', 'a': actor, 'doc': doc, 'c': {'name': pos[1], 'value': default_value(pos[1]), 'attrs': {}, 'xsd_check': True}}
                 if doc in kit.w.docs:
                     yield {'op': 'ATTR_SET', 'a': actor, 'p': [doc], 'name': spec.py_attr_name(pos[2]), 'value': v}
+
+
+
+def prog_related_complex(kit, actor, cfg):
+    """C13 actor built from the schema's complexContent extensions: an element of the *derived* type is given the
+    attributes its extension adds; then fresh elements of the *base* type (and of sibling extensions) are offered
+    those names.  Their verdict alone in a pristine process is the reference (projection twin)."""
+    rng = kit.rng
+    pairs = [(d, b, added) for d, b, added in spec.complex_extension_pairs()
+             if added and spec.elements_of_type(d) and (spec.elements_of_type(b) or True)]
+    if not pairs:
+        return
+    for j in range(rng.randint(1, 2)):
+        d, b, added = rng.choice(pairs)
+        de = rng.choice(spec.elements_of_type(d))
+        yield {'op': 'NEW', 'a': actor, 'doc': 'cd%d' % j, 'c': {'name': de, 'value': default_value(de), 'attrs': {}, 'xsd_check': True}}
+        if 'cd%d' % j in kit.w.docs:
+            for a in added[:2]:
+                g, _b = spec.exemplars(spec.attributes_of_element(de)[a]['type'])
+                if g:
+                    yield {'op': 'ATTR_SET', 'a': actor, 'p': ['cd%d' % j], 'name': spec.py_attr_name(a), 'value': rng.choice(g)}
+            yield {'op': 'TO_STRING', 'a': actor, 'p': ['cd%d' % j], 'ic': False}
+        sibs = spec.elements_of_type(b)
+        for d2, b2, _ad in spec.complex_extension_pairs():
+            if b2 == b and d2 != d:
+                sibs = sibs + spec.elements_of_type(d2)
+        rng.shuffle(sibs)
+        for k, be in enumerate(sibs[:3]):
+            doc = 'cb%d_%d' % (j, k)
+            yield {'op': 'NEW', 'a': actor, 'doc': doc, 'c': {'name': be, 'value': default_value(be), 'attrs': {}, 'xsd_check': True}}
+            if doc in kit.w.docs:
+                a = rng.choice(added)
+                if a not in spec.attributes_of_element(be):
+                    g, _b = spec.exemplars(spec.attributes_of_element(de)[a]['type'])
+                    if g:
+                        yield {'op': 'ATTR_SET', 'a': actor, 'p': [doc], 'name': spec.py_attr_name(a), 'value': rng.choice(g),
+                               'fault': 'rej.bad_attr_name'}
+                yield {'op': 'READ', 'a': actor, 'p': [doc], 'which': 'attributes'}
+                yield {'op': 'TO_STRING', 'a': actor, 'p': [doc], 'ic': False}
+
+
+
+# ---------------------------------------------------------------------------------- C06: conservation
+def wl_C06(rng, w, cfg, index):
+    """Emphasis on removal / replacement / forward adds after a particle was duplicated, on re-homing
+    (intelligent choice) and on rejected calls in between."""
+    cfg = dict(cfg)
+    wts = dict(cfg.get('weights') or {})
+    if rng.random() < 0.6:
+        wts.update({'remove': 4.0, 'replace': 2.0, 'fwd': 1.5, 'dot_none': 1.0, 'readd': 0.8})
+        cfg['shape'] = rng.choice(['fill_max', 'alternate_choice', 'valid_permuted', 'add_remove_cycles', 'uniform', 'dup_then_remove'])
+        cfg['nsteps'] = rng.randint(4, 14)
+    cfg['weights'] = wts
+    return wl_history(rng, w, cfg, index)
